@@ -55,7 +55,7 @@ class _P:
             try:
                 v = frozenset(items)
             except TypeError:
-                v = frozenset(_freeze(x) for x in items)
+                v = list(items)          # a set of records / functions: keep the members, as a list
         elif c == "[":
             self.i += 1
             v = {}
